@@ -282,8 +282,11 @@ def pHReq : P HReq := do
       pure (k, v)) n
     pure (some kv))
   let keeps := be.endsWith "+"
-  let cls := if keeps then (be.dropEnd 1).toString else be
-  pure { req := r, bodyErr := if be == "-" then none else some cls, ctxKeeps := keeps, singleton := sg.toNat?, ext := ext }
+  let cls0 := if keeps then (be.dropEnd 1).toString else be
+  -- `!Class`: raised directly by framework code (not through `_raise` / `errors_map`)
+  let direct := cls0.startsWith "!"
+  let cls := if direct then (cls0.drop 1).toString else cls0
+  pure { req := r, bodyErr := if be == "-" then none else some cls, direct := direct, ctxKeeps := keeps, singleton := sg.toNat?, ext := ext }
 
 def run {α} (p : P α) (toks : List String) : Option α :=
   match p.run toks with
